@@ -577,7 +577,28 @@ impl Job for Mutate {
                 None => "n/a (more queried points than remainder coefficients)".to_string(),
             }
         };
-        json!({"id": sc.id, "prove": "ok", "honest": honest, "bytes": bytes.len(), "structured": applied, "bitflips": flips, "adaptive": adaptive,
+        // a different proof-of-work nonce that passes the grinding condition and draws the same query positions: searched
+        // deterministically for proofs with one or two queries over a small domain and no grinding
+        let mut colliding_nonce = "n/a".to_string();
+        if sc.opts.grind == 0 && sc.opts.q <= 2 && sc.shape.n * sc.opts.blowup <= 256 {
+            let ns = sp.iter().find(|s| s.name == "pow_nonce").unwrap();
+            let orig = u64::from_le_bytes(bytes[ns.off..ns.off + 8].try_into().unwrap());
+            colliding_nonce = "none found".to_string();
+            for cand in 1u64..40000 {
+                if cand == orig {
+                    continue;
+                }
+                let mut mb = bytes.clone();
+                mb[ns.off..ns.off + 8].copy_from_slice(&cand.to_le_bytes());
+                let o = judge_bytes::<B, H>(&mb, &bytes, poff, &b.inputs);
+                if o.starts_with("accepted") {
+                    record(format!("pow_nonce:colliding-nonce {cand} instead of {orig}"), o.clone(), &mut tally, &mut findings, false);
+                    colliding_nonce = format!("{cand}: {o}");
+                    break;
+                }
+            }
+        }
+        json!({"id": sc.id, "prove": "ok", "honest": honest, "bytes": bytes.len(), "structured": applied, "bitflips": flips, "adaptive": adaptive, "colliding_nonce": colliding_nonce,
                "truncations": truncs, "tally": tally, "findings": findings})
     }
 }
